@@ -139,8 +139,11 @@ class Gen:
 
     def constraint(self, d):
         r = self.rng
-        k = r.choice(['any', 'name', 'union', 'interface', 'tilde', 'pointer', 'slice', 'array', 'map', 'chan', 'func', 'generic', 'qualified'])
+        k = r.choice(['any', 'name', 'union', 'interface', 'tilde', 'pointer', 'slice', 'array', 'map', 'chan', 'func', 'generic', 'qualified', 'struct', 'ptr-struct', 'iface-methods'])
         self.cov('constraint-' + k, 'typeparam')
+        if k == 'struct': return {'TypeStruct': {'pos': [0, 0], 'fields': [self.struct_field(1) for _ in range(r.randint(1, 3))]}}
+        if k == 'ptr-struct': return {'TypePointer': {'pos': 0, 'typ': {'TypeStruct': {'pos': [0, 0], 'fields': [self.struct_field(1) for _ in range(r.randint(1, 3))]}}}}
+        if k == 'iface-methods': return {'TypeInterface': {'pos': 0, 'methods': fieldlist([self.iface_elem(1) for _ in range(r.randint(1, 3))])}}
         if k == 'slice': return {'TypeSlice': {'pos': [0, 0], 'typ': ident(self.tname())}}
         if k == 'array': return {'TypeArray': {'pos': [0, 0], 'len': lit('Integer', '3'), 'typ': ident(self.tname())}}
         if k == 'map': return {'TypeMap': {'pos': [0, 0], 'key': ident('string'), 'val': ident(self.tname())}}
@@ -478,7 +481,8 @@ class Gen:
         if params['pos'] is None and self.chance(0.3):
             ln = self.pick([ident('N'), lit('Integer', '8'), self.fix_binop('Star', ident('N'), lit('Integer', '2')), self.fix_binop('Add', ident('n'), ident('m')),
                             {'Call': {'pos': [0, 0], 'args': [ident('x')], 'func': ident('len'), 'dots': None}}, {'Selector': {'pos': 0, 'x': ident('pkg'), 'sel': rawident('N')}},
-                            paren(ident('N')), self.fix_binop('Shl', lit('Integer', '1'), ident('k'))])
+                            paren(ident('N')), self.fix_binop('Shl', lit('Integer', '1'), ident('k')),
+                            self.fix_binop('Star', ident('N'), {'Call': {'pos': [0, 0], 'args': [{'Selector': {'pos': 0, 'x': {'CompositeLit': {'typ': {'TypeStruct': {'pos': [0, 0], 'fields': [field(['a'], {'TypeArray': {'pos': [0, 0], 'len': lit('Integer', '2'), 'typ': ident('int')}}), field(['b'], ident('T'))]}}, 'val': {'pos': [0, 0], 'values': []}}}, 'sel': rawident('a')}}], 'func': ident('len'), 'dots': None}})])
             typ = {'TypeArray': {'pos': [0, 0], 'len': ln, 'typ': self.typ(d - 1, 'typespec-array')}}
             self.cov('typespec-array', 'decl')
         return {'docs': [], 'alias': alias, 'name': rawident(self.pick(['T', 'Node', 'List', 'Ж'])), 'params': params, 'typ': typ}
